@@ -14,26 +14,34 @@ Record keep_mod (a b : module) : Prop := {
   km_reg : m_reg b = true -> m_reg a = true;
   km_connected : m_connected b = true -> m_connected a = true
 }.
-Definition Keep (s s' : mstate) : Prop := Forall2 keep_mod (mods s) (mods s').
+Record Keep (s s' : mstate) : Prop := {
+  kp_mods : Forall2 keep_mod (mods s) (mods s');
+  kp_dyn : dyn_off s' = dyn_off s;
+  kp_uid : next_uid s' = next_uid s
+}.
 
 Lemma keep_mod_refl a : keep_mod a a. Proof. constructor; auto. Qed.
 Lemma keep_mod_trans a b c : keep_mod a b -> keep_mod b c -> keep_mod a c.
 Proof. intros [] []. constructor; try congruence; auto. Qed.
-Lemma Keep_refl s : Keep s s. Proof. apply Forall2_refl, keep_mod_refl. Qed.
+Lemma Keep_refl s : Keep s s. Proof. constructor; auto. apply Forall2_refl, keep_mod_refl. Qed.
 Lemma Keep_trans a b c : Keep a b -> Keep b c -> Keep a c.
-Proof. apply Forall2_trans. apply keep_mod_trans. Qed.
+Proof. intros [] []. constructor; try congruence. eapply Forall2_trans; eauto. apply keep_mod_trans. Qed.
 Lemma frame_keep a b : frame_mod a b -> keep_mod a b.
 Proof. intros []. constructor; auto. Qed.
 Lemma Frame_Keep s s' : Frame s s' -> Keep s s'.
 Proof.
-  intros F. pose proof (fr_mods _ _ F) as H. unfold Keep. induction H; constructor; auto. apply frame_keep; auto.
+  intros F. constructor; [|apply (fr_dyn _ _ F)|apply (fr_uid _ _ F)].
+  pose proof (fr_mods _ _ F) as H. induction H; constructor; auto. apply frame_keep; auto.
+Qed.
+
+Lemma Forall2_keep_upd c f l : (forall m, keep_mod m (f m)) -> Forall2 keep_mod l (upd_mod c f l).
+Proof.
+  intros Hf. induction l as [|m r IH]; simpl; [constructor|].
+  destruct (m_conn m =? c); constructor; auto; [apply Forall2_refl, keep_mod_refl|apply keep_mod_refl].
 Qed.
 
 Lemma Keep_upd s c f : (forall m, keep_mod m (f m)) -> Keep s (with_mods s (upd_mod c f (mods s))).
-Proof.
-  intros Hf. unfold Keep. simpl. induction (mods s) as [|m r IH]; simpl; [constructor|].
-  destruct (m_conn m =? c); constructor; auto; [apply Forall2_refl, keep_mod_refl|apply keep_mod_refl].
-Qed.
+Proof. intros Hf. constructor; simpl; auto. apply Forall2_keep_upd; auto. Qed.
 
 (* ---------- step-level invariants ---------- *)
 
@@ -54,15 +62,15 @@ Qed.
 
 Lemma IdInv_Keep s s' : IdInv s -> Keep s s' -> IdInv s'.
 Proof.
-  intros H K b Hb Hr. destruct (Forall2_In_r _ _ _ _ K Hb) as (a & Ha & [K1 K2 K3 K4 K5]).
+  intros H K b Hb Hr. destruct (Forall2_In_r _ _ _ _ (kp_mods _ _ K) Hb) as (a & Ha & [K1 K2 K3 K4 K5]).
   rewrite K2. apply H; auto.
 Qed.
 
 Lemma UniqInv_Keep s s' : UniqInv s -> Keep s s' -> UniqInv s'.
 Proof.
   intros H K a' b' Ha' Hb' [La1 La2] [Lb1 Lb2] Hne Hid.
-  destruct (Forall2_In_r _ _ _ _ K Ha') as (a & Ha & [A1 A2 A3 A4 A5]).
-  destruct (Forall2_In_r _ _ _ _ K Hb') as (b & Hb & [B1 B2 B3 B4 B5]).
+  destruct (Forall2_In_r _ _ _ _ (kp_mods _ _ K) Ha') as (a & Ha & [A1 A2 A3 A4 A5]).
+  destruct (Forall2_In_r _ _ _ _ (kp_mods _ _ K) Hb') as (b & Hb & [B1 B2 B3 B4 B5]).
   rewrite A3, B3. apply H; auto; try (split; auto); congruence.
 Qed.
 
@@ -122,6 +130,12 @@ Lemma J_send_failed_top X c hh : J X (send_failed cfg FUEL c hh).
 Proof. apply J_send_failed. intros; apply J_fwd. Qed.
 Lemma J_remove_module_top X c : ~ In c X -> J X (remove_module cfg FUEL c).
 Proof. apply J_remove_module. intros; apply J_fwd. Qed.
+Lemma remove_module_post_top X c : ~ In c X -> forall s0, RegInvX X s0 ->
+  match remove_module cfg FUEL c s0 with
+  | Ok _ s' => RegInvX X s' /\ Frame s0 s' /\ m_reg (find_mod c (mods s')) = false
+  | Crash e _ => e = XFuel
+  end.
+Proof. intros H. apply remove_module_post; auto. intros; apply J_fwd. Qed.
 Lemma J_send_checked_top X c hh p : ~ In c X -> J X (send_checked cfg FUEL c hh p).
 Proof. apply J_send_checked. intros; apply J_fwd. Qed.
 
@@ -149,6 +163,99 @@ Lemma J_send_ack c : J [] (send_ack cfg FUEL c).
 Proof.
   unfold send_ack. apply J_get. intros s0.
   apply Jat_bind; [apply J_send_checked_top; intros []|]. intros hh'. apply J_send_to_loggers.
+Qed.
+
+
+(* ---------- subscriptions ---------- *)
+
+Lemma reg_open s c : RegInv s -> m_reg (find_mod c (mods s)) = true ->
+  m_closed (find_mod c (mods s)) = false /\ 0 <= c /\ In (find_mod c (mods s)) (mods s).
+Proof.
+  intros H Hreg. pose proof (find_mod_reg_In c _ Hreg) as [Hi Hcc]. split; [|split; [|exact Hi]].
+  - destruct (m_closed (find_mod c (mods s))) eqn:E; [|reflexivity]. exfalso. apply (ro_flight _ _ _ _ _ H _ Hi Hreg E).
+  - rewrite <- Hcc. apply (ro_pos _ _ _ _ _ H _ Hi).
+Qed.
+
+Lemma km_subs m l : keep_mod m (mm_subs m l). Proof. constructor; auto. Qed.
+
+Lemma find_upd_hit c f l : conn_pres f -> 0 <= c -> m_conn (find_mod c l) = c ->
+  find_mod c (upd_mod c f l) = f (find_mod c l).
+Proof. intros Hf Hc Hcc. rewrite find_upd_same; auto. rewrite Hcc, Z.eqb_refl. reflexivity. Qed.
+
+Definition Tpre {A} (P : mstate -> Prop) (m : M A) : Prop :=
+  forall s, RegInv s -> P s -> match m s with Ok _ s' => RegInv s' /\ Keep s s' | Crash e _ => e = XFuel end.
+
+Lemma add_subscription_T c t : Tpre (fun s => m_reg (find_mod c (mods s)) = true) (add_subscription cfg FUEL c t).
+Proof.
+  intros s H Hreg. destruct (reg_open s c H Hreg) as (Hopen & Hc & Hin).
+  pose proof (find_mod_conn_of_reg _ _ Hreg) as Hcc.
+  unfold add_subscription. unfold bind at 1. unfold get.
+  destruct (t =? ALL_MESSAGE_TYPES) eqn:Et.
+  - apply Z.eqb_eq in Et. subst t.
+    set (sb1 := drop_subs c (m_subs (find_mod c (mods s))) (subs s)).
+    set (ms' := upd_mod c (fun m => mm_subs m [ALLT]) (mods s)).
+    set (s3 := with_mods (with_subs (with_subs s sb1) (aupdate ALLT (zinsert c) sb1)) ms').
+    assert (H3 : RegInv s3).
+    { unfold RegInv, RegInvX, s3. simpl.
+      assert (A : reg_ok [] (mods s) sb1 (loggers s) (next_uid s)) by (apply reg_ok_drop_subs; exact H).
+      assert (B : reg_ok [] ms' sb1 (loggers s) (next_uid s)).
+      { apply reg_ok_set_subs_absent; auto. intros t. apply (drop_subs_gone _ _ _ _ _ c H t). }
+      assert (Hf : find_mod c ms' = mm_subs (find_mod c (mods s)) [ALLT]).
+      { unfold ms'. rewrite find_upd_hit; auto. intro; reflexivity. }
+      apply reg_ok_list_add; auto; rewrite Hf; simpl; auto. }
+    assert (K3 : Keep s s3).
+    { unfold s3. constructor; simpl; auto. apply Forall2_keep_upd. intro; apply km_subs. }
+    change (match (mlog cfg FUEL 10) s3 with Ok _ s' => RegInv s' /\ Keep s s' | Crash e _ => e = XFuel end).
+    pose proof (J_mlog_top [] 10 s3 H3) as Hl. destruct (mlog cfg FUEL 10 s3); [|exact Hl].
+    destruct Hl as [H4 F4]. split; [exact H4|]. eapply Keep_trans; [exact K3|apply Frame_Keep; exact F4].
+  - destruct (zmem ALL_MESSAGE_TYPES (m_subs (find_mod c (mods s)))) eqn:Eall.
+    + simpl. split; [exact H|apply Keep_refl].
+    + apply zmem_false in Eall. apply Z.eqb_neq in Et.
+      set (s3 := with_mods (with_subs s (aupdate t (zinsert c) (subs s)))
+                           (upd_mod c (fun m => mm_subs m (zinsert t (m_subs m))) (mods s))).
+      assert (H3 : RegInv s3).
+      { unfold RegInv, RegInvX, s3. simpl. apply reg_ok_sub_one; auto. }
+      assert (K3 : Keep s s3).
+      { unfold s3. constructor; simpl; auto. apply Forall2_keep_upd. intro; apply km_subs. }
+      change (match (mlog cfg FUEL 10) s3 with Ok _ s' => RegInv s' /\ Keep s s' | Crash e _ => e = XFuel end).
+      pose proof (J_mlog_top [] 10 s3 H3) as Hl. destruct (mlog cfg FUEL 10 s3); [|exact Hl].
+      destruct Hl as [H4 F4]. split; [exact H4|]. eapply Keep_trans; [exact K3|apply Frame_Keep; exact F4].
+Qed.
+
+Lemma remove_subscription_T c t : Tpre (fun s => m_reg (find_mod c (mods s)) = true) (remove_subscription cfg FUEL c t).
+Proof.
+  intros s H Hreg. destruct (reg_open s c H Hreg) as (Hopen & Hc & Hin).
+  unfold remove_subscription. unfold bind at 1. unfold get.
+  destruct (t =? ALL_MESSAGE_TYPES) eqn:Et.
+  - apply Z.eqb_eq in Et. subst t.
+    set (sb1 := aupdate ALLT (zremove c) (subs s)).
+    set (sb2 := drop_subs c (m_subs (find_mod c (mods s))) sb1).
+    set (ms' := upd_mod c (fun m => mm_subs m []) (mods s)).
+    set (s3 := with_mods (with_subs (with_subs s sb1) sb2) ms').
+    assert (H3 : RegInv s3).
+    { unfold RegInv, RegInvX, s3. simpl.
+      assert (A : reg_ok [] (mods s) sb1 (loggers s) (next_uid s)) by (apply reg_ok_aupdate_remove; exact H).
+      assert (B : reg_ok [] (mods s) sb2 (loggers s) (next_uid s)) by (apply reg_ok_drop_subs; exact A).
+      apply reg_ok_set_subs_absent; auto.
+      - intros t. apply (drop_subs_gone _ _ _ _ _ c A t).
+      - simpl. tauto. }
+    assert (K3 : Keep s s3).
+    { unfold s3. constructor; simpl; auto. apply Forall2_keep_upd. intro; apply km_subs. }
+    change (match (mlog cfg FUEL 10) s3 with Ok _ s' => RegInv s' /\ Keep s s' | Crash e _ => e = XFuel end).
+    pose proof (J_mlog_top [] 10 s3 H3) as Hl. destruct (mlog cfg FUEL 10 s3); [|exact Hl].
+    destruct Hl as [H4 F4]. split; [exact H4|]. eapply Keep_trans; [exact K3|apply Frame_Keep; exact F4].
+  - destruct (zmem ALL_MESSAGE_TYPES (m_subs (find_mod c (mods s)))) eqn:Eall.
+    + simpl. split; [exact H|apply Keep_refl].
+    + apply zmem_false in Eall.
+      set (s3 := with_mods (with_subs s (aupdate t (zremove c) (subs s)))
+                           (upd_mod c (fun m => mm_subs m (zremove t (m_subs m))) (mods s))).
+      assert (H3 : RegInv s3).
+      { unfold RegInv, RegInvX, s3. simpl. apply reg_ok_unsub_one; auto. }
+      assert (K3 : Keep s s3).
+      { unfold s3. constructor; simpl; auto. apply Forall2_keep_upd. intro; apply km_subs. }
+      change (match (mlog cfg FUEL 10) s3 with Ok _ s' => RegInv s' /\ Keep s s' | Crash e _ => e = XFuel end).
+      pose proof (J_mlog_top [] 10 s3 H3) as Hl. destruct (mlog cfg FUEL 10 s3); [|exact Hl].
+      destruct Hl as [H4 F4]. split; [exact H4|]. eapply Keep_trans; [exact K3|apply Frame_Keep; exact F4].
 Qed.
 
 End Top.
